@@ -36,6 +36,7 @@ MInit(cfg) ==
    estKa |-> -1, estHold |-> -1, neg |-> 0, prevNeg |-> 0,
    ocm |-> IF cfg.passive THEN "off" ELSE "wait", ocmT |-> IF cfg.passive THEN -1 ELSE FirstDial, ocmHold |-> -1,
    parkedConn |-> FALSE, parkedNotif |-> <<>>, stuck |-> FALSE, rib |-> 0,
+   holdBy |-> "none",        \* what restarted the Established hold timer last (only for the transition cover)
    o |-> [t |-> 0, ms |-> 0, st |-> "Active", admin |-> "Up", wev |-> <<>>, dial |-> FALSE,
           ci |-> NoCO, co |-> NoCO, cx |-> NoCO, ribg |-> <<>>, riba |-> <<>>, admflag |-> FALSE, done |-> TRUE]]
 
@@ -99,7 +100,7 @@ EnterEstablished(s) ==
   LET c == s.cur
       n == NegHold(s.cfg.hold, s[c].hold)
       k == KaInt(n)
-      s1 == Wev([ClearTimers(s) EXCEPT !.neg = n, !.prevNeg = n,
+      s1 == Wev([ClearTimers(s) EXCEPT !.neg = n, !.prevNeg = n, !.holdBy = "est",
                    !.estHold = IF n > 0 THEN s.now + n ELSE -1,
                    !.estKa = IF n > 0 THEN s.now + (IF k = 0 THEN 1 ELSE k) ELSE -1], "Established")
   IN IF s1.parkedNotif # <<>>
@@ -173,11 +174,11 @@ EstablishedRecv(s, e) ==     \* recvMessageloop() + established()
       rearm == [s EXCEPT !.estHold = IF s.neg > 0 THEN s.now + s.neg ELSE -1]
   IN
   IF e.ev = "Close" THEN GoIdle([s EXCEPT ![c] = NoC], "read")
-  ELSE IF IsKeepalive(e) THEN rearm
+  ELSE IF IsKeepalive(e) THEN [rearm EXCEPT !.holdBy = "ka"]
   ELSE IF e.ev = "Update" THEN
        IF s.cfg.maxpfx > 0 /\ e.n > s.cfg.maxpfx
        THEN GoIdle(SendNotif([rearm EXCEPT !.admin = "PfxCt"], c, 6, 1, ""), "read")
-       ELSE [rearm EXCEPT !.rib = Max(s.rib, e.n)]
+       ELSE [rearm EXCEPT !.rib = Max(s.rib, e.n), !.holdBy = "upd"]
   ELSE IF e.ev = "Refresh" THEN s
   ELSE IF e.ev = "Open" THEN s                   \* DEVIATION: OPEN in Established is passed up and ignored
   ELSE IF e.ev = "Notif" THEN GoIdle(CloseC(s, c), "notifrecv")
